@@ -1,23 +1,24 @@
-(* C08 (extension): peers stay disjoint over histories (partial).
+(* C08 (extension): peers stay disjoint over histories (partial in its alphabet).
 
    Tracked instances: the roots returned by constructor calls of the history.  Invariant PD:
-   two tracked instances at different cells reach no common cell (and each is a live cell).
+   two tracked instances at different cells reach no common cell, each is a live cell and holds
+   every defaulted init-enabled attribute in its own dictionary (hd, from SepMore.v).
    It is preserved by every operation of the alphabet `peer_op_ok`:
-     - constructor calls (any keywords; positional key a scalar),
+     - constructor calls (keywords not UNCHANGED; positional key a scalar),
      - every helper called copy-on-write (_inplace=False) with scalar arguments, deepcopy,
        the caller building an argument object of scalars,
-     - the in-place scalar write `obj.a = <scalar>` on a tracked instance, for an attribute
-       nothing is invalidated by,
-   provided every intermediate heap is free of dangling references (`run_wf`, a decidable
-   property of the run: `run_wfb`).  That proviso is what makes the theorem partial: the
-   model has no proof yet that the library never stores a reference to a cell that does not
-   exist (a bounds pass over Model.v); with a dangling reference a later allocation could
-   alias it.
+     - in place, on a tracked instance and for ANY attribute: obj.a = <scalar>, del obj.a,
+       with_<a>(<scalar>), reset_<a>(), reset(), update_<a>(<scalar>), transform_<a>(<scalar callback>)
+       with _inplace=True,
+   provided every heap a step starts from is free of dangling references (`run_wf`, decidable:
+   `run_wfb`); SepMore4.v discharges that proviso for histories with scalar arguments.
 
-   Shape of the proof: with watermark b = length of the heap before the operation and NO
-   allowed old object, the separation judgement of SepProofs.v says that the cells allocated
-   by a copy-on-write operation refer only to cells allocated by it, and nothing old is written;
-   the in-place write is "prepare_attr_value (only allocates) ; one raw_setattr" (SepMore2). *)
+   Shape of the proof.  Copy-on-write steps: with watermark b = length of the heap before the
+   operation and NO allowed old object, the separation judgement of SepProofs.v says that the cells
+   allocated by the operation refer only to cells allocated by it, and nothing old is written.
+   In-place steps have the footprint `ishape` (reflexive, transitive): allocation phases (the same
+   judgement, allowed old objects = what the receiver reached) alternate with single writes to the
+   receiver's cell; invalidation is a loop of such deletions (induction on fuel). *)
 From Coq Require Import List ZArith Bool Arith Lia.
 From SC Require Import Base.Res Base.PyList Inst.Heap Inst.ClassTable Inst.Model Inst.Framed
   Inst.FrameProofs Inst.Reach Inst.FrozenProofs Inst.AtomicProofs Inst.SepProofs Inst.SepMore Inst.SepMore2.
